@@ -566,7 +566,7 @@ func shortIDs(ids []string) []string {
 
 func init() {
 	Register(&Scenario{Prop: "C14", Name: "cache-manager-race", Run: scenC14CacheRace, Weight: 1,
-		Rule: "one instance on the repository's own cache manager (cacheleveldown, leveldb in memory, inside the bubble: its code takes part in the seeded interleavings); for each of 1-3 names an Open of the database's address and the Create of the database run at the same time (the Open may start first and find nothing yet); oracle: Create succeeds; afterwards a local-only Open of the address succeeds and a second Create without overwrite is refused (the database is locally known); every run counts as non-trivial (the two calls of a pair start 0-3 kernel steps apart)"})
+		Rule: "one instance on the repository's own cache manager (cacheleveldown, leveldb in memory, inside the bubble: its code takes part in the seeded interleavings); for each of 1-3 names an Open of the database's address and the Create of the database run at the same time (the Open may start first and find nothing yet); oracle: Create succeeds; afterwards a local-only Open of the address succeeds and a second Create without overwrite is refused (the database is locally known); for half the names the handles then go one by one with a Create that overwrites in between (close the created handle, Create with overwrite, close the older handle from the local-only Open, i.e. a second close of an already released cache): the database created anew stays locally known (Create without overwrite refused, local-only Open succeeds); every run counts as non-trivial (the two calls of a pair start 0-3 kernel steps apart)"})
 }
 
 // WithRealMemoryCache makes the instance use the repository's cacheleveldown manager with
@@ -663,6 +663,50 @@ func scenC14CacheRace(k *K) {
 		})
 		if cop.Done && cop.Err == nil {
 			k.Failf("C14/second-create-accepted", "%q exists locally, a second Create without overwrite was accepted", name)
+		}
+		if k.C.Chance(1, 2) {
+			// the handles go one by one, with a Create that overwrites in between: the handle
+			// from the Create is closed, the database is created anew (overwrite), then the
+			// older handle from the local-only Open is closed (a second close of what the first
+			// close had already released). The database created anew is still locally known
+			k.W.Stat("stale-handle-closed-after-recreate")
+			closeStore := func(v interface{}, what string) {
+				st, _ := v.(iface.Store)
+				if st == nil {
+					return
+				}
+				op := k.Do(0, what, 100, func() (interface{}, error) { return nil, st.Close() })
+				if !op.Done {
+					k.Failf("C14/close-hang", "%s of %q did not return", what, name)
+				}
+			}
+			closeStore(ops[1].Val, "close-created-handle")
+			yesOverwrite := true
+			rop := k.Do(0, "create-overwrite "+name, 100, func() (interface{}, error) {
+				ctx, cancel := OpCtx(time.Minute)
+				defer cancel()
+				return z.DB.Create(ctx, name, typ, &orbitdb.CreateDBOptions{Replicate: &no, Overwrite: &yesOverwrite})
+			})
+			if !rop.Done || rop.Err != nil {
+				k.Failf("C14/create-error", "Create with overwrite of %q after its first handle was closed: done=%v err=%v", name, rop.Done, rop.Err)
+			}
+			closeStore(lop.Val, "close-older-handle")
+			cop2 := k.Do(0, "create-again-2 "+name, 100, func() (interface{}, error) {
+				ctx, cancel := OpCtx(time.Minute)
+				defer cancel()
+				return z.DB.Create(ctx, name, typ, &orbitdb.CreateDBOptions{Replicate: &no})
+			})
+			if cop2.Done && cop2.Err == nil {
+				k.Failf("C14/second-create-accepted", "%q was created anew (overwrite) and is open; after an older handle of it was closed a Create without overwrite was accepted", name)
+			}
+			lop2 := k.Do(0, "open-local-only-2 "+name, 100, func() (interface{}, error) {
+				ctx, cancel := OpCtx(time.Minute)
+				defer cancel()
+				return z.DB.Open(ctx, addr, &orbitdb.CreateDBOptions{Replicate: &no, LocalOnly: &yes})
+			})
+			if !lop2.Done || lop2.Err != nil {
+				k.Failf("C14/localonly-known-refused", "%q was created anew (overwrite) and is open; after an older handle of it was closed a local-only Open says: done=%v err=%v", name, lop2.Done, lop2.Err)
+			}
 		}
 	}
 	k.Notes["overlapped"] = overlapped
